@@ -4,13 +4,17 @@ Observation points (property `observe_at`): the octets that arrive at a Server b
 *below* the real `AnnexJCodec`, what arrives at a Client bound *above* it, and
 `BVLPDU.encode/decode` with the twelve message classes used directly.
 """
-from ..api import Inst, Violation, meta
+from ..api import HarnessError, Inst, Violation, meta
 from ..ref import C09_annexj as R
 
 from bacpypes.comm import Client, Server, bind
 from bacpypes.pdu import PDU, Address, pack_ip_addr, unpack_ip_addr
 from bacpypes import bvll as B
 from bacpypes.bvllservice import AnnexJCodec
+
+_bad = R.selftest()
+if _bad:
+    raise HarnessError("Annex J reference model disagrees with the test suite's literal frames: %r" % (_bad,))
 
 # function code -> the class Annex J names for it (looked up by name, not via the registry)
 CLASSES = [getattr(B, name) for name in R.NAMES]
@@ -138,13 +142,16 @@ def draw_params(d, fn, n, paylo, payhi, fill=0, sym=None, forms=False, lens=None
         if fill:
             if lens:
                 payhi = d.pick(lens, 'npdu_len')
-            free = d.bytes(fill, None, 'npdu_free')
-            body = [(7 * i + 3) % 256 for i in range(payhi)]
-            step = (payhi - 1) // (fill - 1)
-            for k in range(fill - 1):
-                body[k * step] = free[k]
-            body[payhi - 1] = free[fill - 1]
-            p['npdu'] = bytes(body)
+            if payhi <= fill:
+                p['npdu'] = d.bytes(payhi, None, 'npdu_free')
+            else:
+                free = d.bytes(fill, None, 'npdu_free')
+                body = [(7 * i + 3) % 256 for i in range(payhi)]
+                step = (payhi - 1) // (fill - 1)
+                for k in range(fill - 1):
+                    body[k * step] = free[k]
+                body[payhi - 1] = free[fill - 1]
+                p['npdu'] = bytes(body)
         else:
             p['npdu'] = d.bytes(paylo, payhi, 'npdu')
         if forms:
@@ -300,20 +307,34 @@ def check_body(fn, octets, p, via):
 
 
 # ------------------------------------------------------------------ harnesses
-@meta(bounds="one instance per function code 0..11 and shape; result code, TTL, remaining time 0..65535, every "
-             "octet of every six-octet B/IP address (IPv4 + port), 32-bit masks 0..2^32-1 all symbolic; BDT/FDT "
-             "size n fixed per instance (Q: 0..2, T: 0..3 and 40); NPDU of paylo..payhi octets, length and content "
-             "symbolic; for the fixed NPDU lengths 1400 and 1497 with fill=k only k octets spread over the NPDU "
-             "(first, last, equidistant) are symbolic and the others follow a fixed pattern (fill=0: every octet "
-             "symbolic). Addresses are built from six octets and from the (integer IPv4, port) tuple form "
-             "alternately (single addresses: both, by a free boolean)",
-      outside="tables of other sizes than the listed ones; NPDU lengths 7..1399, 1401..1496 and above 1497; "
-              "addresses built from dotted text (covered on literals by `ip_forms`); parameters outside their "
-              "field width",
+@meta(bounds="one instance per function code 0..11 and shape. Symbolic: result code, TTL, remaining time 0..65535, "
+             "every octet of every six-octet B/IP address (IPv4 + port), 32-bit masks 0..2^32-1. BDT/FDT size: "
+             "Q 0,1,2 (every entry symbolic) and 40 (entries 0,1,20,39 symbolic, the others distinct concrete "
+             "fillers); T 0..4 and 8 (every entry symbolic), 40 (12 entries symbolic) and every size 0..40 with "
+             "first and last entry symbolic. NPDU: Q 0..6 octets and T 0..16, 240..256 octets with length and "
+             "every octet symbolic; Q lengths 245,246,251,252 (frame length crossing 255/256), 1400, 1497 with 8 "
+             "symbolic octets (first, last, equidistant) in a fixed non-periodic pattern; T 1400 and 1497 with "
+             "200 symbolic octets, and EVERY length 0..1497 with 8 symbolic octets in the pattern (all octets "
+             "symbolic below 9). Table addresses are built from the (integer IPv4, port) tuple form; single "
+             "addresses (Forwarded-NPDU, Delete-FDT-Entry) also from literal IPv4 octets / dotted text "
+             "(192.168.0.254, 0.0.0.0, 255.255.255.255) with a symbolic port; the NPDU is handed over as octets "
+             "and as a PDU object. Each message goes through AnnexJCodec.indication/confirmation and through the "
+             "class encode/decode + BVLPDU.encode/decode",
+      outside="tables above 40 entries; tables of 5..7, 9..39 entries with more than two symbolic entries; NPDU "
+              "content other than pattern + listed symbolic octets for lengths above 16 (the codec copies the "
+              "NPDU, it does not interpret it); NPDU longer than 1497; Address(bytes) and Address(text) "
+              "constructor forms on symbolic IPv4 octets (engine limits, see mk_addr); parameters outside their "
+              "field width (the encoder masks them)",
       stubs=["socket.inet_aton/inet_ntoa (opaque dotted quad of symbolic octets)"],
       assumes=[])
-def bvll_rt(d, fn, n=0, paylo=0, payhi=0, fill=0, sym=None, lens=None):
-    p = draw_params(d, fn, n, paylo, payhi, fill, sym, forms=True, lens=lens)
+def bvll_rt(d, fn, n=0, nhi=None, sym=None, paylo=0, payhi=0, fill=0, lens=None, lenrange=None, forms=True):
+    if nhi is not None:
+        n = d.pick(range(n, nhi + 1), 'n')
+    if sym == 'ends':
+        sym = [0, n - 1]
+    if lenrange:
+        lens = range(lenrange[0], lenrange[1] + 1)
+    p = draw_params(d, fn, n, paylo, payhi, fill, sym, forms=forms, lens=lens)
 
     # down through the real codec: what is emitted below it
     octets, exc = emit(build(fn, p))
@@ -409,6 +430,20 @@ def bvlpdu_length_guard(d, maxlen):
     d.reach()
 
 
+def draw_datagram(d, lo, hi, part):
+    """any datagram of lo..hi octets.  part 0..11: at least two octets, the function octet
+    is that code and concrete (the registry is a dict of classes: the engine cannot call a
+    class selected by a symbolic key), everything else free.  part 12: the function octet
+    is any of 12..255, or the datagram is shorter than two octets."""
+    if part < 12:
+        t = d.int(0, 255, 'type')
+        rest = d.bytes(max(lo - 2, 0), hi - 2, 'rest')
+        return bytes([t, part]) + rest
+    data = d.bytes(lo, hi, 'octets')
+    d.assume(len(data) < 2 or data[1] >= 12)
+    return data
+
+
 def reencode_rule(d, y, data, strict, fn):
     """y was delivered for datagram `data`.  strict (data is a well-formed Annex J frame):
     sending y again reproduces data.  Otherwise the statement only speaks about frames the
@@ -433,15 +468,7 @@ def reencode_rule(d, y, data, strict, fn):
       stubs=["socket.inet_aton/inet_ntoa (opaque dotted quad of symbolic octets)"],
       assumes=[])
 def bvll_decode_total(d, n, part):
-    if part < 12:
-        # the function octet is concrete (the registry is a dict of classes: the engine
-        # cannot call a class selected by a symbolic key), everything else is free
-        t = d.int(0, 255, 'type')
-        rest = d.bytes(0, n - 2, 'rest')
-        data = bytes([t, part]) + rest
-    else:
-        data = d.bytes(0, n, 'octets')
-        d.assume(len(data) < 2 or data[1] >= 12)
+    data = draw_datagram(d, 0, n, part)
     ref = R.parse(data)
     y, exc = receive(data)
     z, exc2 = direct_decode(data)
@@ -479,19 +506,20 @@ def bvll_decode_total(d, n, part):
     d.reach()
 
 
-@meta(bounds="every datagram of lo..hi octets (length and content symbolic, so every function code and every "
-             "body, valid or not) whose first octet is not 0x81 or whose length field differs from the number "
-             "of octets received, or that is shorter than a header: must be refused by AnnexJCodec.confirmation "
-             "and by BVLPDU.decode",
+@meta(bounds="every datagram of lo..hi octets (length and content symbolic; the function octet is picked from "
+             "the instance's list of codes 0..11 or is any of 12..255) whose first octet is not 0x81 or whose "
+             "length field differs from the number of octets received, or that is shorter than a header: must be "
+             "refused by AnnexJCodec.confirmation and by BVLPDU.decode",
       outside="datagrams longer than hi",
-      stubs=[], assumes=[])
-def bvll_header_guard(d, lo, hi):
-    data = d.bytes(lo, hi, 'octets')
+      stubs=["socket.inet_aton/inet_ntoa (opaque dotted quad of symbolic octets)"], assumes=[])
+def bvll_header_guard(d, lo, hi, parts):
+    part = d.pick(parts, 'part')
+    data = draw_datagram(d, lo, hi, part)
     why = R.header_fault(data)
     d.assume(why is not None)
     y, exc = receive(data)
     if exc is None:
-        raise Violation("accepted-bad-" + why, data=data, got=type(y).__name__)
+        raise Violation("accepted-bad-" + why, data=data, got=type(y).__name__, via="codec")
     b = B.BVLPDU()
     try:
         b.decode(PDU(data))
@@ -562,23 +590,32 @@ def instances(tier):
             rt(fn, "n=40 (4 symbolic)", n=40, sym=[0, 1, 20, 39])
         else:
             rt(fn, "n=40 (12 symbolic)", n=40, sym=[0, 1, 2, 3, 9, 10, 19, 20, 30, 37, 38, 39])
+            for lo in (1, 11, 21, 31):
+                rt(fn, "n=%d..%d (first+last symbolic)" % (lo, lo + 9), n=lo, nhi=lo + 9, sym='ends')
     for fn in R.HAS_NPDU:
         rt(fn, "npdu=0..%d" % (6 if q else 16), paylo=0, payhi=6 if q else 16)
-        # total frame length crossing 255/256 (the first length octet comes into use)
         if q:
+            # total frame length crossing 255/256 (the first length octet comes into use)
             rt(fn, "npdu in 245,246,251,252 (8 symbolic)", lens=[245, 246, 251, 252], fill=8)
         else:
-            rt(fn, "npdu=240..256", paylo=240, payhi=256)
+            rt(fn, "npdu=240..256", paylo=240, payhi=256, forms=False)
+            # every NPDU length of the quantifier, 16 slices
+            for lo in range(0, 1498, 94):
+                hi = min(lo + 93, 1497)
+                rt(fn, "npdu=%d..%d (8 symbolic)" % (lo, hi), lenrange=[lo, hi], fill=8, forms=False)
         for ln in (1400, 1497):
-            k = 8 if q else 96
+            k = 8 if q else 200
             rt(fn, "npdu=%d (%d symbolic)" % (ln, k), paylo=ln, payhi=ln, fill=k)
     for fn in range(12):
         out.append(Inst(bvll_length_guard, dict(fn=fn), budget=b, label="fn=%d %s" % (fn, R.NAMES[fn])))
     out.append(Inst(bvlpdu_length_guard, dict(maxlen=16 if q else 300), budget=b))
-    n = 26 if q else 46
+    n = 26 if q else 64
     for part in range(13):
         out.append(Inst(bvll_decode_total, dict(n=n, part=part), budget=b,
                         label="n=%d,fn=%s" % (n, "%d %s" % (part, R.NAMES[part]) if part < 12 else "other")))
-    out.append(Inst(bvll_header_guard, dict(lo=0, hi=64 if q else 1600), budget=b))
+    for parts in ([[0, 1, 2, 3], [4, 5, 6, 7], [8, 9, 10, 11], [12]] if q else [[k] for k in range(13)]):
+        hi = 64 if q else 1600
+        out.append(Inst(bvll_header_guard, dict(lo=0, hi=hi, parts=parts), budget=b,
+                        label="0..%d octets,fn=%s" % (hi, ",".join(str(k) if k < 12 else "other" for k in parts))))
     out.append(Inst(ip_forms, {}, budget=b))
     return out
